@@ -193,7 +193,11 @@ class Driver:
         ans = dict((node.get("_answer") or {}))
         for k in (node.get("outputs") or {}):
             ans.setdefault(k, 1)
-        acts.append(("Next", ans))
+        if node.get("_close_with"):
+            # scenario hint: the client ends this act with another action (e.g. an error that a catch rule takes)
+            acts.append((node["_close_with"][0], dict(node["_close_with"][1])))
+        else:
+            acts.append(("Next", ans))
         return acts
 
     def do(self, W, p, t, kind, opts):
